@@ -20,113 +20,136 @@ theorem Down.tail {l : List K} {ls : List (List K)} (h : Down cmp (l :: ls)) : D
 theorem Down.head_sub {l : List K} {ls : List (List K)} (h : Down cmp (l :: ls)) :
     ∀ l' ∈ ls, l.Sublist l' := (List.pairwise_cons.mp h.2).1
 
-/-- Does some visited level hold `key`? -/
-def anyHas (key : K) (ls : List (List K)) : Bool := ls.any (fun l => decide (key ∈ l))
+/-- The node the level loops hit: the node equivalent to `key` on the first visited level
+that holds one. -/
+def hitIn (cmp : K → K → Int) (key : K) (ls : List (List K)) : Option K := ls.findSome? (findEq cmp key)
 
 /-- The cursor after visiting all of `ls`. -/
 def descend (cmp : K → K → Int) (key : K) (ls : List (List K)) (cur : Option K) : Option K :=
   ls.foldl (fun _ l => pred cmp key l) cur
 
-theorem setLoop_spec (hc : TotalCmp cmp) (key : K) :
+theorem descend_congr (hc : WeakCmp cmp) {n key : K} (h : cmp n key = 0) :
+    descend cmp key = descend cmp n := by
+  funext ls cur; unfold descend; rw [pred_congr hc h]
+
+theorem hitIn_cons (key : K) (l : List K) (ls : List (List K)) :
+    hitIn cmp key (l :: ls) = match findEq cmp key l with
+      | some n => some n
+      | none => hitIn cmp key ls := by
+  unfold hitIn; rw [List.findSome?_cons]; cases findEq cmp key l <;> rfl
+
+theorem setLoop_spec (hc : WeakCmp cmp) (key : K) :
     ∀ (ls : List (List K)) (cur : Option K) (upd : List (Option K)), Down cmp ls →
       (∀ l ∈ ls, CurOK cmp key cur l) →
       setLoop cmp key ls cur upd =
-        if anyHas key ls then some (.inl key)
-        else some (.inr ((ls.map (pred cmp key)).reverse ++ upd)) := by
+        match hitIn cmp key ls with
+        | some n => some (.inl n)
+        | none => some (.inr ((ls.map (pred cmp key)).reverse ++ upd)) := by
   intro ls
   induction ls with
-  | nil => intro cur upd _ _; simp [setLoop, anyHas]
+  | nil => intro cur upd _ _; simp [setLoop, hitIn]
   | cons l ls ih =>
     intro cur upd hd hcur
     obtain ⟨rest, h1, h2⟩ := level_walk hc key (hd.1 l (by simp)) (hcur l (by simp))
     unfold setLoop
-    rw [h1]; simp only []; rw [h2]
-    by_cases hm : key ∈ l
-    · simp [hm, anyHas]
-    · simp only [hm, if_false]
+    rw [h1]; simp only []; rw [h2, hitIn_cons]
+    cases hf : findEq cmp key l with
+    | some n => rfl
+    | none =>
+      simp only []
       rw [ih _ _ hd.tail]
-      · simp [anyHas, hm]
+      · cases hitIn cmp key ls <;> simp
       · intro l' hl'
         exact (pred_curOK key l).mono (hd.head_sub l' hl')
 
-theorem findLoop_spec (hc : TotalCmp cmp) (key : K) :
+theorem findLoop_spec (hc : WeakCmp cmp) (key : K) :
     ∀ (ls : List (List K)) (cur : Option K), Down cmp ls →
       (∀ l ∈ ls, CurOK cmp key cur l) →
-      findLoop cmp key ls cur = some (if anyHas key ls then some key else none) := by
+      findLoop cmp key ls cur = some (hitIn cmp key ls) := by
   intro ls
   induction ls with
-  | nil => intro cur _ _; simp [findLoop, anyHas]
+  | nil => intro cur _ _; simp [findLoop, hitIn]
   | cons l ls ih =>
     intro cur hd hcur
     obtain ⟨rest, h1, h2⟩ := level_walk hc key (hd.1 l (by simp)) (hcur l (by simp))
     unfold findLoop
-    rw [h1]; simp only []; rw [h2]
-    by_cases hm : key ∈ l
-    · simp [hm, anyHas]
-    · simp only [hm, if_false]
+    rw [h1]; simp only []; rw [h2, hitIn_cons]
+    cases hf : findEq cmp key l with
+    | some n => rfl
+    | none =>
+      simp only []
       rw [ih _ hd.tail]
-      · simp [anyHas, hm]
-      · intro l' hl'
-        exact (pred_curOK key l).mono (hd.head_sub l' hl')
+      intro l' hl'
+      exact (pred_curOK key l).mono (hd.head_sub l' hl')
 
-theorem startLoop_spec (hc : TotalCmp cmp) (key : K) :
+theorem startLoop_spec (hc : WeakCmp cmp) (key : K) :
     ∀ (ls : List (List K)) (cur : Option K), Down cmp ls →
       (∀ l ∈ ls, CurOK cmp key cur l) →
       startLoop cmp key ls cur =
-        if anyHas key ls then some (.inl key) else some (.inr (descend cmp key ls cur)) := by
+        match hitIn cmp key ls with
+        | some n => some (.inl n)
+        | none => some (.inr (descend cmp key ls cur)) := by
   intro ls
   induction ls with
-  | nil => intro cur _ _; simp [startLoop, anyHas, descend]
+  | nil => intro cur _ _; simp [startLoop, hitIn, descend]
   | cons l ls ih =>
     intro cur hd hcur
     obtain ⟨rest, h1, h2⟩ := level_walk hc key (hd.1 l (by simp)) (hcur l (by simp))
     unfold startLoop
-    rw [h1]; simp only []; rw [h2]
-    by_cases hm : key ∈ l
-    · simp [hm, anyHas]
-    · simp only [hm, if_false]
+    rw [h1]; simp only []; rw [h2, hitIn_cons]
+    cases hf : findEq cmp key l with
+    | some n => rfl
+    | none =>
+      simp only []
       rw [ih _ hd.tail]
-      · simp [anyHas, hm, descend]
+      · simp [descend]
       · intro l' hl'
         exact (pred_curOK key l).mono (hd.head_sub l' hl')
 
 /-- Number of visited levels that hold `key`. -/
 def cntHas (key : K) (ls : List (List K)) : Nat := (ls.filter (fun l => decide (key ∈ l))).length
 
-theorem cntHas_of_head {key : K} {l : List K} {ls : List (List K)} (hd : Down cmp (l :: ls))
-    (hm : key ∈ l) : cntHas key (l :: ls) = ls.length + 1 := by
-  unfold cntHas
+/-- Number of visited levels that hold a node equivalent to `key`. -/
+def cntHit (cmp : K → K → Int) (key : K) (ls : List (List K)) : Nat :=
+  (ls.filter (fun l => (findEq cmp key l).isSome)).length
+
+theorem cntHit_of_head (hc : WeakCmp cmp) {key n : K} {l : List K} {ls : List (List K)}
+    (hd : Down cmp (l :: ls)) (hm : findEq cmp key l = some n) : cntHit cmp key (l :: ls) = ls.length + 1 := by
+  obtain ⟨hn, he⟩ := findEq_some hm
+  unfold cntHit
   rw [List.filter_eq_self.mpr]
   · simp
   · intro l' hl'
     rcases List.mem_cons.mp hl' with rfl | h
-    · simpa using hm
-    · simpa using (hd.head_sub l' h).subset hm
+    · simp [hm]
+    · rw [findEq_of_mem hc (hd.1 l' (by simp [h])) ((hd.head_sub l' h).subset hn) he]; rfl
 
-theorem removeLoop_spec (hc : TotalCmp cmp) (key : K) :
+theorem removeLoop_spec (hc : WeakCmp cmp) (key : K) :
     ∀ (ls : List (List K)) (cur : Option K) (cl : Nat) (upd : List (Option K)), Down cmp ls →
       (∀ l ∈ ls, CurOK cmp key cur l) →
       removeLoop cmp key ls cur cl upd =
-        some (descend cmp key ls cur, (if cl = 0 then cntHas key ls else cl),
+        some (descend cmp key ls cur, (if cl = 0 then cntHit cmp key ls else cl),
               (ls.map (pred cmp key)).reverse ++ upd) := by
   intro ls
   induction ls with
-  | nil => intro cur cl upd _ _; simp [removeLoop, descend, cntHas]
+  | nil => intro cur cl upd _ _; simp [removeLoop, descend, cntHit]
   | cons l ls ih =>
     intro cur cl upd hd hcur
     obtain ⟨rest, h1, h2⟩ := level_walk hc key (hd.1 l (by simp)) (hcur l (by simp))
     unfold removeLoop
     rw [h1]; simp only []; rw [h2]; simp only []
     rw [ih _ _ _ hd.tail]
-    · by_cases hm : key ∈ l
-      · have hc1 := cntHas_of_head hd hm
+    · cases hm : findEq cmp key l with
+      | some n =>
+        have hc1 := cntHit_of_head hc hd hm
         by_cases hcl : cl = 0
-        · subst hcl; simp [hm, hc1, descend]
-        · simp [hm, hcl, descend]
-      · have : cntHas key (l :: ls) = cntHas key ls := by simp [cntHas, hm]
+        · subst hcl; simp [hc1, descend]
+        · simp [hcl, descend]
+      | none =>
+        have : cntHit cmp key (l :: ls) = cntHit cmp key ls := by simp [cntHit, hm]
         by_cases hcl : cl = 0
-        · subst hcl; simp [hm, this, descend]
-        · simp [hm, hcl, descend]
+        · subst hcl; simp [this, descend]
+        · simp [hcl, descend]
     · intro l' hl'
       exact (pred_curOK key l).mono (hd.head_sub l' hl')
 
@@ -161,7 +184,7 @@ def delTop (cmp : K → K → Int) (key : K) : Nat → List (List K) → List (L
   | _ + 1, [] => []
   | n + 1, l :: lv => del cmp key l :: delTop cmp key n lv
 
-theorem splice_spec (hc : TotalCmp cmp) (key : K) :
+theorem splice_spec (hc : WeakCmp cmp) (key : K) :
     ∀ (n : Nat) (lv : List (List K)) (us : List (Option K)), n ≤ lv.length → n ≤ us.length →
       (∀ l ∈ lv, Sorted cmp l) →
       (∀ i, i < n → us[i]? = (lv[i]?).map (pred cmp key)) →
@@ -185,7 +208,7 @@ theorem splice_spec (hc : TotalCmp cmp) (key : K) :
           (fun i hi => by simpa using hus (i + 1) (by omega))]
         rfl
 
-theorem unsplice_spec (hc : TotalCmp cmp) (key : K) :
+theorem unsplice_spec (hc : WeakCmp cmp) (key : K) :
     ∀ (n : Nat) (lv : List (List K)) (us : List (Option K)), n ≤ lv.length → n ≤ us.length →
       (∀ l ∈ lv, Sorted cmp l) →
       (∀ i, i < n → us[i]? = (lv[i]?).map (pred cmp key)) →
@@ -288,8 +311,8 @@ theorem mem_delTop {key : K} : ∀ {n : Nat} {lv : List (List K)} {b : List K},
         exact ⟨l', by simp [hl'], h⟩
 
 /-- Splicing a fresh key into the lowest `n` levels keeps the tower. -/
-theorem Tower.insTop (hc : TotalCmp cmp) {key : K} :
-    ∀ {n : Nat} {lv : List (List K)}, Tower cmp lv → (∀ l ∈ lv, key ∉ l) →
+theorem Tower.insTop (hc : WeakCmp cmp) {key : K} :
+    ∀ {n : Nat} {lv : List (List K)}, Tower cmp lv → (∀ l ∈ lv, ∀ y ∈ l, cmp y key ≠ 0) →
       Tower cmp (insTop cmp key n lv) := by
   intro n
   induction n with
@@ -318,8 +341,8 @@ theorem Tower.insTop (hc : TotalCmp cmp) {key : K} :
 
 /-- Unsplicing a key from the lowest `n` levels keeps the tower, provided the levels above
 do not hold it. -/
-theorem Tower.delTop (hc : TotalCmp cmp) {key : K} :
-    ∀ {n : Nat} {lv : List (List K)}, Tower cmp lv → (∀ l ∈ lv.drop n, key ∉ l) →
+theorem Tower.delTop (hc : WeakCmp cmp) {key : K} :
+    ∀ {n : Nat} {lv : List (List K)}, Tower cmp lv → (∀ l ∈ lv.drop n, ∀ y ∈ l, cmp y key ≠ 0) →
       Tower cmp (delTop cmp key n lv) := by
   intro n
   induction n with
@@ -355,7 +378,7 @@ theorem Tower.delTop (hc : TotalCmp cmp) {key : K} :
           rw [← hget]; exact del_sublist_del hsub
         · simp only [hin, if_false, Option.some.injEq] at hget
           rw [← hget]
-          have hnk : key ∉ lv[i] := by
+          have hnk : ∀ y ∈ lv[i], cmp y key ≠ 0 := by
             apply hk
             simp only [List.drop_succ_cons]
             rw [List.mem_iff_getElem]
